@@ -56,27 +56,36 @@ theorem calc_reg_in (e : Expr) : ∀ (long : Option Bool) (force : Bool) (g g' :
     · rw [pure_ok] at h; cases h
       left; simp [hr, hd]
     · rename_i hc; simp at hc
-  | neg a ih =>
+  | neg a _ =>
     intro long force g g' res h
     simp only [calculate] at h
-    rw [bind_ok] at h; obtain ⟨ra, g1, hc, h⟩ := h
-    rw [bind_ok] at h; obtain ⟨u, g2, _, h⟩ := h
+    rw [bind_ok] at h; obtain ⟨⟨d1, rel⟩, g1, hfree, h⟩ := h
+    obtain ⟨_, _, _, hcase⟩ := getFree_ok hfree
+    have hr : rel = [d1] := by
+      rcases hcase with ⟨h1, _⟩ | ⟨_, h2, _, _⟩
+      · cases h1
+      · exact h2
+    simp only [] at h
+    rw [bind_ok] at h; obtain ⟨ra, g2, hc, h⟩ := h
+    rw [bind_ok] at h; obtain ⟨u, g3, _, h⟩ := h
     rw [pure_ok] at h; cases h
-    exact ih long force g g1 _ hc
-  | abs a ih =>
+    have hd := calc_forced_reg a d1 long g1 g2 ra hc
+    left; simp [hr, hd]
+  | abs a _ =>
     intro long force g g' res h
     simp only [calculate] at h
-    rw [bind_ok] at h; obtain ⟨ra, g1, hc, h⟩ := h
-    rw [bind_ok] at h; obtain ⟨os, g2, _, h⟩ := h
-    have hres : res = ra := by
-      split at h
-      · rw [bind_ok] at h; obtain ⟨u0, g3, hf, _⟩ := h; rw [fail_ok] at hf; exact hf.elim
-      · rw [bind_ok] at h; obtain ⟨u1, g4, _, h⟩ := h
-        rw [bind_ok] at h; obtain ⟨u2, g5, _, h⟩ := h
-        rw [bind_ok] at h; obtain ⟨u3, g6, _, h⟩ := h
-        rw [pure_ok] at h; cases h; rfl
-    subst hres
-    exact ih long force g g1 _ hc
+    rw [bind_ok] at h; obtain ⟨⟨d1, rel⟩, g1, hfree, h⟩ := h
+    obtain ⟨_, _, _, hcase⟩ := getFree_ok hfree
+    have hr : rel = [d1] := by
+      rcases hcase with ⟨h1, _⟩ | ⟨_, h2, _, _⟩
+      · cases h1
+      · exact h2
+    simp only [] at h
+    rw [bind_ok] at h; obtain ⟨ra, g2, hc, h⟩ := h
+    rw [bind_ok] at h; obtain ⟨u, g3, _, h⟩ := h
+    rw [pure_ok] at h; cases h
+    have hd := calc_forced_reg a d1 long g1 g2 ra hc
+    left; simp [hr, hd]
   | mem f a _ =>
     intro long force g g' res h
     cases hs : a.asSum with
@@ -114,8 +123,8 @@ theorem retLong_widthOf (e : Expr) : retLong (widthOf e) e = widthOf e := by
   | const v => rfl
   | reg no lg sg => rfl
   | bin op l r sg k _ _ => rfl
-  | neg a ih => simpa [retLong, widthOf] using ih
-  | abs a ih => simpa [retLong, widthOf] using ih
+  | neg a ih => simp only [retLong, widthOf, ih, Bool.or_self]
+  | abs a ih => simp only [retLong, widthOf, ih, Bool.or_self]
   | mem f a _ => rfl
 
 /-- **width `None`**: a `calculate` that is asked for no particular width behaves exactly like one asked for the
@@ -143,14 +152,30 @@ theorem calc_none (e : Expr) : ∀ (dst : Option Nat) (force : Bool) (g g' : Gen
     intro dst force g g' res h
     simp only [calculate, widthOf] at h ⊢
     rw [bind_ok] at h ⊢
-    obtain ⟨ra, g1, hc, h⟩ := h
-    exact ⟨ra, g1, ih _ _ _ _ _ hc, h⟩
+    obtain ⟨⟨d1, rel⟩, g1, hfree, h⟩ := h
+    refine ⟨(d1, rel), g1, hfree, ?_⟩
+    simp only [] at h ⊢
+    rw [bind_ok] at h ⊢
+    obtain ⟨ra, g2, hc, h⟩ := h
+    have hw : ra.long = widthOf a := calc_resLong a _ _ _ _ _ _ hc
+    have hu : unaryLong (some (widthOf a)) ra.long = unaryLong none ra.long := by
+      rw [hw]; cases widthOf a <;> rfl
+    refine ⟨ra, g2, ih _ _ _ _ _ hc, ?_⟩
+    rw [hu]; exact h
   | abs a ih =>
     intro dst force g g' res h
     simp only [calculate, widthOf] at h ⊢
     rw [bind_ok] at h ⊢
-    obtain ⟨ra, g1, hc, h⟩ := h
-    exact ⟨ra, g1, ih _ _ _ _ _ hc, h⟩
+    obtain ⟨⟨d1, rel⟩, g1, hfree, h⟩ := h
+    refine ⟨(d1, rel), g1, hfree, ?_⟩
+    simp only [] at h ⊢
+    rw [bind_ok] at h ⊢
+    obtain ⟨ra, g2, hc, h⟩ := h
+    have hw : ra.long = widthOf a := calc_resLong a _ _ _ _ _ _ hc
+    have hu : unaryLong (some (widthOf a)) ra.long = unaryLong none ra.long := by
+      rw [hw]; cases widthOf a <;> rfl
+    refine ⟨ra, g2, ih _ _ _ _ _ hc, ?_⟩
+    rw [hu]; exact h
   | mem f a _ =>
     intro dst force g g' res h
     cases hs : a.asSum with
